@@ -193,6 +193,10 @@ impl Builder {
             scheduler.run(&mut execution, move || {
                 f();
 
+                // The destructors of the main thread's thread-locals may use
+                // the lazy statics, which (unlike the real ones) are dropped.
+                rt::drop_thread_locals();
+
                 let lazy_statics = rt::execution(|execution| execution.lazy_statics.drop());
 
                 // drop outside of execution
